@@ -163,6 +163,20 @@ def main():
         for b in r["backends"]:
             backends[b] = backends.get(b, 0) + 1
     refuted = [r for r in all_results if r["status"] in ("sat", "sat-inst")]
+    # baseline rule: an obligation that was discharged on the unchanged tree and can no longer be discharged
+    # after the function under contract changed is reported as a violation (no input found); if the function
+    # is unchanged the solver is to blame and the obligation stays undecided.
+    base_path = os.path.join(HERE, "baseline", f"{prop}.json")
+    baseline = json.load(open(base_path)) if os.path.exists(base_path) else {}
+    regressed = []
+    for r in all_results:
+        if r["status"] in ("unknown",):
+            c = r["contract"]
+            b = baseline.get(c.key)
+            fs = gens[c.key].func
+            if b and fs and r["obl"].id in b.get("discharged", []) and b.get("sha") != fs.sha:
+                r["status"] = "regressed"
+                regressed.append(r)
     for r in all_results:
         if r["status"] == "unknown":
             undecided.append(f"{r['obl'].id}: solver unknown ({'; '.join(p.get('reason','') for p in r['parts'] if p['status']!='unsat')[:200]})")
@@ -171,7 +185,7 @@ def main():
 
     # group refutations by clause (path-independent id)
     by_clause = {}
-    for r in refuted:
+    for r in refuted + regressed:
         by_clause.setdefault(r["obl"].id, []).append(r)
 
     replay_results = {}
@@ -297,6 +311,16 @@ def main():
                 violations.append((oid, rpath, f.get("input", True)))
         except Exception as e:  # noqa
             errors.append(f"bounded stand-in {b['script']} failed to run: {type(e).__name__}: {e}")
+
+    # ---- baseline writer (tools/make_baseline.py sets VERIF_WRITE_BASELINE=1; never during registered checks) --------
+    if os.environ.get("VERIF_WRITE_BASELINE") == "1":
+        os.makedirs(os.path.join(HERE, "baseline"), exist_ok=True)
+        doc = {}
+        for c in contracts:
+            fs = gens[c.key].func
+            doc[c.key] = {"sha": fs.sha if fs else None,
+                          "discharged": sorted({r["obl"].id for r in all_results if r["contract"] is c and r["status"] == "unsat"})}
+        json.dump(doc, open(base_path, "w"), indent=0)
 
     # ---- evidence ------------------------------------------------------------------------------------------------------
     wall = time.time() - t_start
